@@ -133,4 +133,183 @@ theorem horner_err (fm : Bool) (x : Nat) (X : ℚ) (hx : Bnd x X) (cs : List Nat
         push_cast at hme hc0 ⊢
         nlinarith
 
+
+/-! ### refined bound: interval enclosures of the partial sums on a piece `x ∈ [xl, xh]`, `0 ≤ xl`
+(the absolute-value recursion above is hopeless for alternating coefficients such as those of `log2`) -/
+
+/-- one `multiply_add(a, b, c)` in terms of bounds on the exact product and the exact sum -/
+theorem madd_err2 (fm : Bool) (a b c : Nat) (P S : ℝ) (ha : Finite a) (hb : Finite b) (hc : Finite c)
+    (hP : |toReal a * toReal b| ≤ P) (hS : |toReal a * toReal b + toReal c| ≤ S) (hP1 : P ≤ 1000) (hS1 : S ≤ 1000) :
+    Finite (multiplyAdd fm a b c) ∧
+    |toReal (multiplyAdd fm a b c) - (toReal a * toReal b + toReal c)| ≤ u * (P * (1 + u) + S) + 3 * eta := by
+  have hu := u_pos; have he := eta_pos
+  have hu1 : u ≤ 1 := by rw [u_val]; norm_num
+  have he1 : eta ≤ 1 := le_trans eta_le (by norm_num)
+  have hP0 : 0 ≤ P := le_trans (abs_nonneg _) hP
+  have hS0 : 0 ≤ S := le_trans (abs_nonneg _) hS
+  have k1 : eta * u ≤ eta := by nlinarith
+  have k2 : 0 ≤ P * u := mul_nonneg hP0 hu.le
+  have k3 : 0 ≤ P * u * u := mul_nonneg k2 hu.le
+  unfold multiplyAdd
+  cases fm
+  · simp only [Bool.false_eq_true, if_false]
+    have hAB : |toReal a| * |toReal b| ≤ P := by rw [← abs_mul]; exact hP
+    obtain ⟨hp, hpe⟩ := mul_bnd a b |toReal a| |toReal b| ⟨ha, le_refl _⟩ ⟨hb, le_refl _⟩ (fit_small _ (by linarith))
+    have hpe' : |toReal (mul a b) - toReal a * toReal b| ≤ u * P + eta := by
+      have := mul_le_mul_of_nonneg_left hAB hu.le; linarith
+    have hsum : |toReal (mul a b) + toReal c| ≤ S + (u * P + eta) := by
+      have e : toReal (mul a b) + toReal c = (toReal a * toReal b + toReal c) + (toReal (mul a b) - toReal a * toReal b) := by ring
+      rw [e]; exact le_trans (abs_add_le _ _) (add_le_add hS hpe')
+    obtain ⟨hs, hse⟩ := add_val (mul a b) c hp.1 hc (fit_small _ (by nlinarith))
+    refine ⟨hs, ?_⟩
+    have : |toReal (add (mul a b) c) - (toReal a * toReal b + toReal c)|
+        ≤ |toReal (add (mul a b) c) - (toReal (mul a b) + toReal c)| + |toReal (mul a b) - toReal a * toReal b| := by
+      have e : toReal (add (mul a b) c) - (toReal a * toReal b + toReal c)
+          = (toReal (add (mul a b) c) - (toReal (mul a b) + toReal c)) + (toReal (mul a b) - toReal a * toReal b) := by ring
+      rw [e]; exact abs_add_le _ _
+    refine le_trans this ?_
+    have h3 : u * |toReal (mul a b) + toReal c| ≤ u * (S + (u * P + eta)) := mul_le_mul_of_nonneg_left hsum hu.le
+    nlinarith
+  · simp only [if_true]
+    obtain ⟨hs, hse⟩ := fma_val a b c ha hb hc (fit_small _ (by linarith))
+    refine ⟨hs, le_trans hse ?_⟩
+    have h3 : u * |toReal a * toReal b + toReal c| ≤ u * S := mul_le_mul_of_nonneg_left hS hu.le
+    nlinarith
+
+/-- (lower end, upper end of the real partial sum; error bound of the float partial sum) for `x ∈ [xl, xh]` -/
+def hornerB2 (xl xh : ℚ) : List Nat → ℚ × ℚ × ℚ
+  | [] => (0, 0, 0)
+  | [c] => (ratOf c, ratOf c, 0)
+  | c :: d :: cs =>
+    let r := hornerB2 xl xh (d :: cs)
+    let lo' := ratOf c + min (xl * r.1) (xh * r.1)
+    let hi' := ratOf c + max (xl * r.2.1) (xh * r.2.1)
+    let P := xh * (max |r.1| |r.2.1| + r.2.2)
+    let S := max |lo'| |hi'| + xh * r.2.2
+    (lo', hi', xh * r.2.2 + (uQ * (P * (1 + uQ) + S) + 3 * etaQ))
+
+def hornerOk2 (xl xh : ℚ) : List Nat → Bool
+  | [] => false
+  | [c] => finiteB c
+  | c :: d :: cs =>
+    let r := hornerB2 xl xh (d :: cs)
+    let lo' := ratOf c + min (xl * r.1) (xh * r.1)
+    let hi' := ratOf c + max (xl * r.2.1) (xh * r.2.1)
+    finiteB c && decide (xh * (max |r.1| |r.2.1| + r.2.2) ≤ 1000) && decide (max |lo'| |hi'| + xh * r.2.2 ≤ 1000) && hornerOk2 xl xh (d :: cs)
+
+theorem horner_err2 (fm : Bool) (x : Nat) (xl xh : ℚ) (hx : Finite x) (hxl : (xl:ℝ) ≤ toReal x) (hxh : toReal x ≤ (xh:ℝ))
+    (h0 : 0 ≤ xl) (cs : List Nat) (hok : hornerOk2 xl xh cs = true) :
+    Finite (hornerF fm x cs) ∧
+    (((hornerB2 xl xh cs).1 : ℚ) : ℝ) ≤ evalR (cs.map ratOf) (toReal x) ∧
+    evalR (cs.map ratOf) (toReal x) ≤ (((hornerB2 xl xh cs).2.1 : ℚ) : ℝ) ∧
+    |toReal (hornerF fm x cs) - evalR (cs.map ratOf) (toReal x)| ≤ (((hornerB2 xl xh cs).2.2 : ℚ) : ℝ) := by
+  have hxl0 : (0:ℝ) ≤ (xl:ℝ) := by exact_mod_cast h0
+  have hx0 : (0:ℝ) ≤ toReal x := le_trans hxl0 hxl
+  have hxh0 : (0:ℝ) ≤ (xh:ℝ) := le_trans hx0 hxh
+  induction cs with
+  | nil => simp [hornerOk2] at hok
+  | cons c cs ih =>
+    cases cs with
+    | nil =>
+      simp only [hornerOk2] at hok
+      have hf := finite_of_finiteB c hok
+      simp only [hornerF, hornerB2, List.map, evalR_cons, evalR_nil, mul_zero, add_zero]
+      refine ⟨hf, le_refl _, le_refl _, ?_⟩
+      rw [ratOf_cast]; simp
+    | cons d cs =>
+      simp only [hornerOk2, Bool.and_eq_true, decide_eq_true_eq] at hok
+      obtain ⟨⟨⟨hfc, hP1⟩, hS1⟩, hrest⟩ := hok
+      obtain ⟨hfin, hlo, hhi, herr⟩ := ih hrest
+      have hf := finite_of_finiteB c hfc
+      set r := hornerB2 xl xh (d :: cs) with hr
+      set s := evalR ((d :: cs).map ratOf) (toReal x) with hs
+      set sh := toReal (hornerF fm x (d :: cs)) with hsh
+      have hE0 : (0:ℝ) ≤ ((r.2.2 : ℚ) : ℝ) := le_trans (abs_nonneg _) herr
+      have hsabs : |s| ≤ ((max |r.1| |r.2.1| : ℚ) : ℝ) := by
+        push_cast
+        rw [abs_le]
+        constructor
+        · have := neg_abs_le ((r.1 : ℚ) : ℝ)
+          have := le_max_left |((r.1 : ℚ) : ℝ)| |((r.2.1 : ℚ) : ℝ)|
+          linarith
+        · have := le_abs_self ((r.2.1 : ℚ) : ℝ)
+          have := le_max_right |((r.1 : ℚ) : ℝ)| |((r.2.1 : ℚ) : ℝ)|
+          linarith
+      have hshabs : |sh| ≤ ((max |r.1| |r.2.1| : ℚ) : ℝ) + ((r.2.2 : ℚ) : ℝ) := by
+        have := abs_sub_abs_le_abs_sub sh s
+        linarith
+      -- exact product and sum
+      have hPb : |toReal x * sh| ≤ ((xh * (max |r.1| |r.2.1| + r.2.2) : ℚ) : ℝ) := by
+        rw [abs_mul, abs_of_nonneg hx0]
+        push_cast
+        push_cast at hshabs
+        exact mul_le_mul hxh hshabs (abs_nonneg _) hxh0
+      -- the new real partial sum
+      have hnew : evalR ((c :: d :: cs).map ratOf) (toReal x) = toReal c + toReal x * s := by
+        simp only [List.map, evalR_cons]; rw [ratOf_cast]; simp only [hs, List.map, evalR_cons]
+      have hxs_lo : ((min (xl * r.1) (xh * r.1) : ℚ) : ℝ) ≤ toReal x * s := by
+        push_cast
+        by_cases hl : 0 ≤ ((r.1 : ℚ) : ℝ)
+        · calc min ((xl:ℝ) * ((r.1 : ℚ) : ℝ)) ((xh:ℝ) * ((r.1 : ℚ) : ℝ)) ≤ (xl:ℝ) * ((r.1 : ℚ) : ℝ) := min_le_left _ _
+            _ ≤ toReal x * ((r.1 : ℚ) : ℝ) := mul_le_mul_of_nonneg_right hxl hl
+            _ ≤ toReal x * s := mul_le_mul_of_nonneg_left hlo hx0
+        · have hl' := le_of_lt (not_le.mp hl)
+          calc min ((xl:ℝ) * ((r.1 : ℚ) : ℝ)) ((xh:ℝ) * ((r.1 : ℚ) : ℝ)) ≤ (xh:ℝ) * ((r.1 : ℚ) : ℝ) := min_le_right _ _
+            _ ≤ toReal x * ((r.1 : ℚ) : ℝ) := by nlinarith
+            _ ≤ toReal x * s := mul_le_mul_of_nonneg_left hlo hx0
+      have hxs_hi : toReal x * s ≤ ((max (xl * r.2.1) (xh * r.2.1) : ℚ) : ℝ) := by
+        push_cast
+        by_cases hl : 0 ≤ ((r.2.1 : ℚ) : ℝ)
+        · calc toReal x * s ≤ toReal x * ((r.2.1 : ℚ) : ℝ) := mul_le_mul_of_nonneg_left hhi hx0
+            _ ≤ (xh:ℝ) * ((r.2.1 : ℚ) : ℝ) := mul_le_mul_of_nonneg_right hxh hl
+            _ ≤ _ := le_max_right _ _
+        · have hl' := le_of_lt (not_le.mp hl)
+          calc toReal x * s ≤ toReal x * ((r.2.1 : ℚ) : ℝ) := mul_le_mul_of_nonneg_left hhi hx0
+            _ ≤ (xl:ℝ) * ((r.2.1 : ℚ) : ℝ) := by nlinarith
+            _ ≤ _ := le_max_left _ _
+      set lo' := ratOf c + min (xl * r.1) (xh * r.1) with hlo'
+      set hi' := ratOf c + max (xl * r.2.1) (xh * r.2.1) with hhi'
+      have hnl : ((lo' : ℚ) : ℝ) ≤ toReal c + toReal x * s := by
+        rw [hlo']; push_cast; rw [ratOf_cast]; push_cast at hxs_lo; linarith
+      have hnh : toReal c + toReal x * s ≤ ((hi' : ℚ) : ℝ) := by
+        rw [hhi']; push_cast; rw [ratOf_cast]; push_cast at hxs_hi; linarith
+      have hnabs : |toReal c + toReal x * s| ≤ ((max |lo'| |hi'| : ℚ) : ℝ) := by
+        push_cast
+        rw [abs_le]
+        constructor
+        · have := neg_abs_le ((lo' : ℚ) : ℝ)
+          have := le_max_left |((lo' : ℚ) : ℝ)| |((hi' : ℚ) : ℝ)|
+          linarith
+        · have := le_abs_self ((hi' : ℚ) : ℝ)
+          have := le_max_right |((lo' : ℚ) : ℝ)| |((hi' : ℚ) : ℝ)|
+          linarith
+      have hxe : |toReal x * (sh - s)| ≤ (xh:ℝ) * ((r.2.2 : ℚ) : ℝ) := by
+        rw [abs_mul, abs_of_nonneg hx0]; exact mul_le_mul hxh herr (abs_nonneg _) hxh0
+      have hSb : |toReal x * sh + toReal c| ≤ ((max |lo'| |hi'| + xh * r.2.2 : ℚ) : ℝ) := by
+        have e : toReal x * sh + toReal c = (toReal c + toReal x * s) + toReal x * (sh - s) := by ring
+        rw [e]
+        refine le_trans (abs_add_le _ _) ?_
+        push_cast
+        push_cast at hnabs
+        linarith
+      have hP1' : ((xh * (max |r.1| |r.2.1| + r.2.2) : ℚ) : ℝ) ≤ 1000 := by exact_mod_cast hP1
+      have hS1' : ((max |lo'| |hi'| + xh * r.2.2 : ℚ) : ℝ) ≤ 1000 := by exact_mod_cast hS1
+      obtain ⟨hmf, hme⟩ := madd_err2 fm x (hornerF fm x (d :: cs)) c _ _ hx hfin hf hPb hSb hP1' hS1'
+      have hu : ((uQ : ℚ) : ℝ) = u := by rw [u_val]; unfold uQ; push_cast; ring
+      have he : eta ≤ ((etaQ : ℚ) : ℝ) := by unfold etaQ; push_cast; exact eta_le
+      refine ⟨hmf, ?_, ?_, ?_⟩
+      · rw [hnew]; exact hnl
+      · rw [hnew]; exact hnh
+      · rw [hnew]
+        show _ ≤ (((xh * r.2.2 + (uQ * (xh * (max |r.1| |r.2.1| + r.2.2) * (1 + uQ) + (max |lo'| |hi'| + xh * r.2.2)) + 3 * etaQ)) : ℚ) : ℝ)
+        have hsplit : toReal (hornerF fm x (c :: d :: cs)) - (toReal c + toReal x * s)
+            = (toReal (multiplyAdd fm x (hornerF fm x (d :: cs)) c) - (toReal x * sh + toReal c)) + toReal x * (sh - s) := by
+          simp only [hornerF]; ring
+        rw [hsplit]
+        refine le_trans (abs_add_le _ _) ?_
+        push_cast
+        rw [hu]
+        push_cast at hme hxe
+        linarith
+
 end Horner
